@@ -86,6 +86,7 @@ class Monitors(Listener):
         self.blocks = 0
         self.tier_moves = 0
         self.live_h2c = set()             # pids of hot->cold moves in flight
+        self.h2c_inflight = {}            # pid -> [observation being moved hot->cold, amount that has arrived]
         self.max_live_h2c = 0
         self.max_hot_used = Fraction(0)
         self.kinds = {}
@@ -207,11 +208,17 @@ class Monitors(Listener):
             self.check_row_pre()
         elif k == "alloctasks":
             info["_cv"] = cluster_view(sim)
+            ob = info["args"][0] if info["args"] else None
+            plan = getattr(ob, "plan", None)
+            # C07: the workflow is complete when this block begins (every task of the plan FINISHED)
+            info["_wf_complete"] = bool(plan is not None and plan.tasks and all(
+                str(getattr(t.task_status, "name", t.task_status)) == "FINISHED" for t in plan.tasks))
         elif k == "provingest" and info["blocks"] == 0:
             info["_cv"] = cluster_view(sim)
         elif k in ("hot2cold", "cold2hot"):
             b = sim.buffer
             info["_sum"] = b.hot[0].current_capacity + b.cold[0].current_capacity
+            info["_cold_pre"] = b.cold[0].current_capacity
 
     def on_end(self, pid, info, outcome):
         k = info["kind"]
@@ -225,13 +232,30 @@ class Monitors(Listener):
             self.after_alloc_begin(info, outcome)
         if k == "monitor":
             self.check_row_post()
+        if k == "alloctasks" and info.get("_wf_complete") and outcome[0] != "raise" and self.want("C07"):
+            # ... so this very block hands the observation back: its data is freed when its workflow completes,
+            # not some scheduling rounds later
+            ob = info["args"][0]
+            hot = sim.buffer.hot[0]
+            if ob not in hot.observations["finished"]:
+                self.viol("C07", "data-not-freed-when-workflow-completed",
+                          "%s: every task FINISHED when its allocate_tasks block began at %s, still resident after it" % (
+                              ob.name, fr(now)))
         if k == "provingest" and info["blocks"] == 1:
             ob = info["args"][1] if len(info["args"]) > 1 else None
             self.promised.pop(getattr(ob, "name", ob), None)
         if k == "provingest" and info["blocks"] == 1 and outcome[0] == "yield":
             self.after_prov_ingest(info)
+        if k == "hot2cold":
+            # what is on its way to the cold tier: the observation the first block picked, less what has arrived
+            hot0, cold0 = sim.buffer.hot[0], sim.buffer.cold[0]
+            if info["blocks"] == 1 and outcome[0] == "yield" and hot0.observations["transfer"] is not None:
+                self.h2c_inflight[pid] = [hot0.observations["transfer"], 0]
+            if pid in self.h2c_inflight:
+                self.h2c_inflight[pid][1] += info.get("_cold_pre", cold0.current_capacity) - cold0.current_capacity
         if k == "hot2cold" and outcome[0] in ("end", "raise"):
             self.live_h2c.discard(pid)
+            self.h2c_inflight.pop(pid, None)
         if k in ("hot2cold", "cold2hot") and outcome[0] != "raise":
             b = sim.buffer
             s2 = b.hot[0].current_capacity + b.cold[0].current_capacity
@@ -279,6 +303,12 @@ class Monitors(Listener):
         need = vol + (tr.total_data_size if tr else 0)
         if need > cold.current_capacity:
             self.viol("C08", "admitted-without-cold-space", "%s %s" % (o.name, snap))
+        # ... counted independently of the cold tier's own transfer marker: what is still on its way to the cold
+        # tier will need room there too
+        coming = sum(max(0, ob.total_data_size - moved) for ob, moved in self.h2c_inflight.values())
+        if coming and vol <= cold.current_capacity < vol + coming:
+            snap["still_to_arrive_in_cold"] = fr(coming)
+            self.viol("C08", "admitted-without-cold-space", "%s %s (room taken by data still in transit to the cold tier)" % (o.name, snap))
         if str(o.status.value) != "WAITING":
             self.viol("C08", "admitted-not-waiting", "%s %s" % (o.name, o.status))
         # running ingests at this moment (feature)
